@@ -292,13 +292,25 @@ REGEXES = [
 # Small decision expressions of the scheduler and of the version generator are translated from the
 # Python AST; the hand-written models are proved equal to them (tie lemmas), so a change of the source
 # expression breaks a proof obligation.  Strict whitelist; anything else is Unsupported (fail-closed).
+_PLAIN_DECORATORS = {"property", "staticmethod", "classmethod", "cli_command", "contextlib.contextmanager", "app.get('/api/1/task_graph')"}
+
+
+def _undecorated(f, where):
+    """a decorator can change what a function does without touching its body (functools.lru_cache turns `a fresh context per call` into
+    `the first context for ever`): only the plain ones are accepted"""
+    for d in f.decorator_list:
+        if ast.unparse(d) not in _PLAIN_DECORATORS:
+            raise Unsupported("%s is decorated with @%s" % (where, ast.unparse(d)))
+    return f
+
+
 def _find_method(relpath, cls, name):
     tree = ast.parse(open(os.path.join(SRC, relpath), encoding="utf-8").read())
     for node in tree.body:
         if isinstance(node, ast.ClassDef) and node.name == cls:
             for f in node.body:
                 if isinstance(f, ast.FunctionDef) and f.name == name:
-                    return f
+                    return _undecorated(f, "%s.%s" % (cls, name))
     raise Unsupported("%s: no method %s.%s" % (relpath, cls, name))
 
 
@@ -650,7 +662,7 @@ def _find_function(relpath, name):
     tree = ast.parse(open(os.path.join(SRC, relpath), encoding="utf-8").read())
     for node in tree.body:
         if isinstance(node, ast.FunctionDef) and node.name == name:
-            return node
+            return _undecorated(node, name)
     raise Unsupported("%s: no function %s" % (relpath, name))
 
 
@@ -1318,9 +1330,13 @@ def archive_item():
     if t.finalbody or t.orelse or len(t.handlers) != 1 or ast.unparse(t.handlers[0].type) != "OSError" or len(t.body) != 3:
         raise Unsupported("create_archive: the try block has another shape")
     popen, wait, test = t.body
-    args_src = ast.unparse(popen)
-    if not (args_src.startswith("process = subprocess.Popen(['tar', 'czf', str(output_archive_path.absolute()), '-C', str(ctx.output_path), ") and args_src.endswith("shell=False)")):
-        raise Unsupported("create_archive does not run `tar czf <output> -C <cond-out> ...`")
+    want_popen = ("process = subprocess.Popen(['tar', 'czf', str(output_archive_path.absolute()), '-C', str(ctx.output_path), '--', "
+                  "str(archive_index_path.relative_to(ctx.output_path)), *output_dirs_str], shell=False)")
+    if ast.unparse(popen) != want_popen:
+        raise Unsupported("create_archive does not run exactly `tar czf <output> -C <cond-out> -- <index> <version directories>`: %s" % ast.unparse(popen)[:160])
+    want_dirs = "output_dirs_str = [str(pathlib.Path(task_id.path, f.task_output_dir(task_id, version))) for (task_id, version) in archive_index.get_all_versions()]"
+    if ast.unparse(cb[0]) not in (want_dirs, want_dirs.replace("for (task_id, version) in", "for task_id, version in")):
+        raise Unsupported("create_archive: the member list is not one directory per row of the archive index: %s" % ast.unparse(cb[0])[:160])
     if ast.unparse(wait) != "process.wait()" or not (isinstance(test, ast.If) and ast.unparse(test.test) == "process.returncode != 0" and not test.orelse):
         raise Unsupported("create_archive does not wait for tar and test its exit status")
     raises = [ast.unparse(n.exc) for n in ast.walk(c) if isinstance(n, ast.Raise) and n.exc is not None]
@@ -1635,6 +1651,21 @@ def exec_decisions_item():
     if len(skips) != 1:
         raise Unsupported("%d tests mention exe_deps_succeeded" % len(skips))
     skip_test = _bexpr(skips[0].test, {"next_op.exe_deps_succeeded()": "deps_ok"}, NAT_OPS)
+    def only_prints(st):
+        """an `if` whose whole body (and else) consists of print / print_<colour> calls: output cosmetics, no effect on what is modelled"""
+        if not isinstance(st, ast.If):
+            return False
+        for x in list(st.body) + list(st.orelse):
+            if isinstance(x, ast.If):
+                if not only_prints(x):
+                    return False
+            elif not (isinstance(x, ast.Expr) and isinstance(x.value, ast.Call) and ast.unparse(x.value.func).startswith("print")):
+                return False
+        return True
+
+    for x in skips[0].body:
+        if isinstance(x, ast.If) and not only_prints(x):
+            raise Unsupported("the skip branch contains a conditional that does more than print: %s" % ast.unparse(x).splitlines()[0])
     sk = [ast.unparse(x) for x in skips[0].body if not isinstance(x, ast.If)]
     if sk != ["next_op.set_state(OperationState.SKIPPED)", "self._process_finished_op(next_op)"]:
         raise Unsupported("the skip branch is not SKIPPED + _process_finished_op: %r" % sk)
@@ -1646,6 +1677,9 @@ def exec_decisions_item():
     a1, a2, tr, slot_if, pfin, ret = w
     if ast.unparse(a1) != "error_occurred = False" or ast.unparse(a2) not in ("(handle, op) = self._inflight_ops.wait_for_next_op()", "handle, op = self._inflight_ops.wait_for_next_op()"):
         raise Unsupported("_wait_for_next_inflight_op does not start with the flag and the wait")
+    for x in tr.body:
+        if isinstance(x, ast.If) and not only_prints(x):
+            raise Unsupported("the try block of _wait_for_next_inflight_op contains a conditional that does more than print: %s" % ast.unparse(x).splitlines()[0])
     tb = [ast.unparse(x) for x in tr.body if not isinstance(x, ast.If)]
     if tb != ["op.finish_execution(handle, ctx)", "op.set_state(OperationState.SUCCEEDED)"]:
         raise Unsupported("the try block of _wait_for_next_inflight_op: %r" % tb)
@@ -1673,8 +1707,16 @@ def exec_decisions_item():
     if len(ifs) != 1 or not ifs[0].orelse:
         raise Unsupported("_report_execution_results does not end in one if/else")
     verdict = _bexpr(ifs[0].test, {"all_succeeded": "all_succeeded", "main_task_executed": "main_executed", "main_task_cached": "main_cached"}, NAT_OPS)
-    if any(isinstance(n, ast.Raise) for st in ifs[0].body for n in ast.walk(st)):
-        raise Unsupported("the success branch of _report_execution_results raises")
+    for st in ifs[0].body:
+        if not (isinstance(st, ast.Expr) and isinstance(st.value, ast.Call) and ast.unparse(st.value.func).startswith("print")):
+            raise Unsupported("the success branch of _report_execution_results does more than print: %s" % ast.unparse(st).splitlines()[0])
+    loops = [ast.unparse(st) for st in ifs[0].orelse if isinstance(st, ast.For) and ast.unparse(st.iter) == "self._completed_ops"]
+    want_loop = ("for op in self._completed_ops:\n    if op.main_task is None:\n        continue\n    if op.state == OperationState.SKIPPED:\n        skipped_tasks.append(op.main_task.identifier)\n"
+                 "    elif op.state == OperationState.FAILED:\n        failed_task_ops.append(op)")
+    if loops != [want_loop]:
+        raise Unsupported("the failure branch of _report_execution_results does not classify the completed operations as expected")
+    if any(isinstance(n, ast.Call) and ast.unparse(n.func) in ("sys.exit", "exit", "os._exit") for st in body for n in ast.walk(st)):
+        raise Unsupported("_report_execution_results ends the process itself")
     tail = ifs[0].orelse[-1]
     if ast.unparse(tail) != "raise failed_task_ops[0].stored_error":
         raise Unsupported("the failure branch does not end by raising the first failed task's error")
@@ -1705,6 +1747,8 @@ def clean_item():
         raise Unsupported("clean.main: the confirmation is not `input(...)` compared with 'y' after strip().lower(): %r" % tb)
     if len(tr.handlers) != 1 or ast.unparse(tr.handlers[0].type) != "EOFError" or ast.unparse(tr.handlers[0].body[-1]) != "sys.exit(1)" or tr.finalbody or tr.orelse:
         raise Unsupported("clean.main: end of input does not abort with status 1")
+    if any(("rmtree" in ast.unparse(x) or "unlink" in ast.unparse(x) or "remove" in ast.unparse(x)) for x in ast.walk(conf) if isinstance(x, ast.stmt)):
+        raise Unsupported("clean.main removes something while asking for confirmation")
     if not (isinstance(unl, ast.Try) and [ast.unparse(x) for x in unl.body] == ["(ctx.output_path / VERSION_INDEX_NAME).unlink(missing_ok=True)"] and len(unl.handlers) == 1
             and ast.unparse(unl.handlers[0].type) == "OSError" and ast.unparse(unl.handlers[0].body[-1]) == "sys.exit(1)" and not unl.finalbody and not unl.orelse):
         raise Unsupported("clean.main does not unlink the version index first, stopping with status 1 when that fails")
@@ -1772,6 +1816,18 @@ def lowering_item():
             par, rec, ser = False, False, False
         if "output_path = lt.task.get_output_path(self._ctx)" not in [ast.unparse(st) for st in node.body] and opcls != 2:
             raise Unsupported("branch %s does not take the task's own output path" % cls)
+        # nothing else happens in the branch
+        others = [ast.unparse(st) for st in node.body if st is not new_ops[0]]
+        allowed = {"RunExperiment": ["exp_version = lt.task.create_new_version(self._ctx)", "output_path = lt.task.get_output_path(self._ctx)", "assert output_path is not None"],
+                   "RunCommand": ["output_path = lt.task.get_output_path(self._ctx)", "assert output_path is not None"],
+                   "Combine": ["output_path = lt.task.get_output_path(self._ctx)", "assert output_path is not None", "dep_output_paths = []",
+                               "for task_dep_id in lt.task.deps:\n    task = self._ctx.task_index.get_task(task_dep_id)\n    task_output_path = task.get_output_path(self._ctx)\n"
+                               "    if task_output_path is not None:\n        dep_output_paths.append((task_dep_id, task_output_path))"],
+                   "Group": []}[cls]
+        if others != allowed:
+            raise Unsupported("branch %s of the lowering chain does something else: %r" % (cls, [o.splitlines()[0] for o in others]))
+        if opcls == 1 and (kw.get("deps_output_paths") != "dep_output_paths" or kw.get("output_path") != "output_path"):
+            raise Unsupported("branch %s: the combine operation is not given the collected (dependency, directory) pairs" % cls)
         rows.append((kinds[cls], opcls, par, has_version, rec, ser))
         if len(node.orelse) == 1 and isinstance(node.orelse[0], ast.If):
             node = node.orelse[0]
